@@ -2201,7 +2201,7 @@ class _Ops:
                 if self._holds(t) != held_before:
                     changed = [k for k in held_before if held_before[k] != self._holds(t).get(k)]
                     vs = [self.viol("C09", "accessor-changed-receiver", x, "acc:grid(composite)", {"changed": changed[:4]})]
-                    if any(p_.valid and p_.t == x.hid for p_ in self.pairs):
+                    if any(p_.t == x.hid for p_ in self.pairs):
                         vs.append(self.viol("C07", "accessor-changed-receiver", x, "acc:grid(composite)", {"changed": changed[:4], "receiver_has_inverse": True}))
                     self.set_buf(x, "unknown")
                     return StepResult("ok", "acc-changed-receiver", vs)
@@ -2254,7 +2254,7 @@ class _Ops:
         if r is not t and held_after != held_before:
             changed = [k for k in held_before if held_before[k] != held_after.get(k)]
             vs = [self.viol("C09", "accessor-changed-receiver", x, "acc:" + how, {"changed": changed[:4]})]
-            if any(p_.valid and p_.t == x.hid for p_ in self.pairs):
+            if any(p_.t == x.hid for p_ in self.pairs):
                 # an inverse taken from the receiver reads what the receiver holds: it is no longer the inverse of what was evaluated
                 vs.append(self.viol("C07", "accessor-changed-receiver", x, "acc:" + how, {"changed": changed[:4], "receiver_has_inverse": True}))
             return StepResult("ok", "acc-changed-receiver", vs)
@@ -2269,8 +2269,11 @@ class _Ops:
                 det = {"shared_members": sorted({cname(mem_t[i]) for i in shared})[:4]}
                 return StepResult("ok", "acc-shares-members", [self.viol("C09", "copy-shares-members", x, "acc:condition", det), self.viol("C07", "copy-shares-members", x, "acc:condition", det)])
         y = self._new_from(x, r, hid, how, buf=x.buf if how in ("grid", "data", "condition") else buf)
-        if how in ("grid", "data", "condition"):
+        same_grid = how == "grid" and bool(op.get("equal"))
+        if how in ("grid", "data", "condition") and not same_grid:
             self.set_cleared(y, "acc:" + how)
+        # (grid(g) with the grid the transform already has is a plain shallow copy: nothing is re-expressed and no buffer is
+        # dropped, so the copy inherits whatever state the receiver's buffers are in -- false alarm 58)
         if how in ("grid", "data") and kind_of(t) == "P":
             for st in self.st.values():
                 if st.comp == x.comp and st.obj is not y.obj and not isinstance(st.obj, CompositeTransform):
@@ -2284,7 +2287,7 @@ class _Ops:
                 y.affine_params = bool(x.affine_params and gprobe is not None and gprobe[0] == "world")
         if how == "link":
             self.merge_comp(x.comp, o.comp)
-        if how in ("grid", "data", "condition"):
+        if how in ("grid", "data", "condition") and not same_grid:
             self.fresh_changed = {id(y.obj)}
             self.last_change[id(y.obj)] = "acc:" + how
         self.hot = [y.hid, x.hid]
@@ -3203,6 +3206,13 @@ class _Gen:
     def propose(self, rng: Rng) -> Optional[Dict[str, Any]]:
         sc = self.sc
         live = self.live()
+        pend = getattr(self, "pending", None)
+        if pend:
+            op = pend.pop(0)
+            if self.get(op.get("h")) is not None:
+                self.last_kind = op["op"]
+                return op
+            self.pending = []
         if not live or (self.n_roots < sc["max_roots"] and rng.chance(0.06)):
             op = self.root_op(rng)
             self.last_kind, self.last_new_hid = "new", op.get("out")
@@ -3616,7 +3626,7 @@ class _Gen:
         return {"op": "hook", "h": x.hid, "mode": "remove"}
 
     def gen_cast(self, rng):
-        how = rng.weighted([("double-float", 3), ("freeze", 1.5), ("unfreeze", 1.5), ("train-eval", 0.6), ("eval", 1.5), ("train", 0.8), ("zero_grad", 1), ("to-same", 1)])
+        how = rng.weighted([("double-float", 3), ("freeze", 3), ("unfreeze", 1.2), ("train-eval", 0.6), ("eval", 1.5), ("train", 0.8), ("zero_grad", 1), ("to-same", 1)])
         if how != "double-float":
             x = None
             if how == "freeze" and rng.chance(0.7):
@@ -3624,6 +3634,11 @@ class _Gen:
                 x = self.pick(rng, lambda y: not self.has_none(y) and not y.is_comp and kind_of(y.obj) == "P" and y.obj.params.requires_grad)
             if x is None:
                 x = self.pick(rng, lambda y: not self.has_none(y))
+            if x is not None and how == "freeze" and not x.is_comp and kind_of(x.obj) == "P" and rng.chance(0.5):
+                # frozen parameters that are then evaluated, changed behind the optimiser's back (in-place copy, reset,
+                # reload) and evaluated again: the scripted continuation of a freeze
+                change = rng.weighted([({"op": "inplace", "h": x.hid, "val": self.val_desc(rng, x.obj, small=True)}, 3), ({"op": "reset", "h": x.hid}, 1)])
+                self.pending = [{"op": "call", "h": x.hid, "pseed": rng.subseed()}, change, {"op": "call", "h": x.hid, "pseed": rng.subseed()}]
             return None if x is None else {"op": "cast", "h": x.hid, "how": how}
         x = self.pick(rng, lambda y: not self.has_none(y) and not any(kind_of(e.obj) in ("C", "L") for e in self.elems(y)))
         return None if x is None else {"op": "cast", "h": x.hid}
